@@ -439,6 +439,8 @@ pub enum SEv {
     DropBody(usize),
     DropRespond(usize),
     DropSend(usize),
+    /// SETTINGS with ENABLE_PUSH = 0 (once): promises whose PUSH_PROMISE is still queued are cancelled
+    PeerDisablePush,
     Drive,
     TimePasses,
 }
@@ -448,6 +450,7 @@ pub struct SWorld {
     pub pushed: Vec<h2::SendStream<Bytes>>,
     pub resets: u64,
     pub pushes: u64,
+    pub push_disabled: bool,
 }
 
 pub struct ServerLife {
@@ -482,6 +485,7 @@ impl ServerLife {
             ev.push(SEv::DropRespond(k));
             ev.push(SEv::DropSend(k));
         }
+        ev.push(SEv::PeerDisablePush);
         ev.push(SEv::Drive);
         if expire_now {
             ev.push(SEv::TimePasses);
@@ -504,7 +508,7 @@ impl Model for ServerLife {
         T2Cfg { role: Side::Server, peer_settings, client: None, server: Some(sb), policy: IoPolicy::default() }
     }
     fn init(&self, _t: &mut T2) -> SWorld {
-        SWorld { opened: vec![], pushed: vec![], resets: 0, pushes: 0 }
+        SWorld { opened: vec![], pushed: vec![], resets: 0, pushes: 0, push_disabled: false }
     }
     fn n_events(&self) -> usize {
         self.events.len()
@@ -527,6 +531,7 @@ impl Model for ServerLife {
             SEv::Respond(k, _) | SEv::ServerReset(k) | SEv::DropRespond(k) | SEv::Push(k) => acc(*k).map(|a| a.respond.is_some()).unwrap_or(false) && (!matches!(self.events[e], SEv::Push(_)) || w.pushes < 1),
             SEv::SendEos(k) | SEv::DropSend(k) => acc(*k).map(|a| a.send.is_some()).unwrap_or(false),
             SEv::ReadAll(k) | SEv::DropBody(k) => acc(*k).map(|a| a.body.is_some()).unwrap_or(false),
+            SEv::PeerDisablePush => !w.push_disabled,
             SEv::Drive | SEv::TimePasses => true,
         }
     }
@@ -624,6 +629,10 @@ impl Model for ServerLife {
                     safe_drop(&mut panics, "SendStream", a.send.take());
                 }
             }
+            SEv::PeerDisablePush => {
+                t.peer_send(&wf::settings(&[(wf::setting::ENABLE_PUSH, 0)]));
+                w.push_disabled = true;
+            }
             SEv::Drive => {
                 t.drive(200);
             }
@@ -698,7 +707,7 @@ impl Model for ServerLife {
         v
     }
     fn digest_extra(&self, t: &T2, w: &SWorld) -> String {
-        let mut s = format!("pushed={} pushes={}", w.pushed.len(), w.pushes);
+        let mut s = format!("pushed={} pushes={} nopush={}", w.pushed.len(), w.pushes, w.push_disabled);
         for &sid in &w.opened {
             let a = t.accepted.iter().find(|a| a.sid == sid);
             s.push_str(&format!("|{}:acc={} body={} resp={} send={} peer={:?} rst={:?}", sid, a.is_some(), a.map(|a| a.body.is_some()).unwrap_or(false), a.map(|a| a.respond.is_some()).unwrap_or(false), a.map(|a| a.send.is_some()).unwrap_or(false), peer_frames(t, sid).iter().map(|f| (f.raw.ty, f.raw.flags & 1)).collect::<Vec<_>>(), t.rst_sent(sid)));
